@@ -52,6 +52,9 @@ func (g *c07Engine) runHist(bin string, hp *histPlan, env ...string) (*histResul
 	return &res, p, nil
 }
 
+// slowNoVerdict is set by CheckC07 (Env.SlowIsNoVerdict): see there.
+var slowNoVerdict func() bool
+
 // scriptPanics: the history's device is scripted to die (its Read panics) at some point.
 func scriptPanics(hp *histPlan) bool {
 	devs := []*plan.Dev{hp.Dev}
@@ -76,6 +79,9 @@ func crashVerdict(hp *histPlan, p Proc) *histVerdict {
 		return nil
 	}
 	if p.TimedOut {
+		if slowNoVerdict != nil && slowNoVerdict() {
+			return nil
+		}
 		return &histVerdict{Class: "hang", Key: "hang/" + histKey(hp.Ops, len(hp.Ops)), Detail: "the history did not finish within the time limit"}
 	}
 	if p.Exit != 0 {
@@ -436,6 +442,7 @@ func CheckC07(e *Env) (int, error) {
 		return 2, err
 	}
 	g := &c07Engine{e: e, src: src, cold: cold}
+	slowNoVerdict = func() bool { return e.SlowIsNoVerdict("go", "a cold-start history") }
 	nReal, nSim := 1200, 1200
 	if e.Tier == "thorough" {
 		nReal, nSim = 60000, 60000
